@@ -137,7 +137,7 @@ class Session:
         if order:
             for rel, names in order.items():
                 table[os.path.join(self.scratch, rel)] = names
-        fsseam.begin_scan(table)
+        fsseam.begin_scan(table, explicit=bool(order))
         try:
             try:
                 if cfg.get("via") == "modobj":
